@@ -1,5 +1,5 @@
 import Driver.Util
-import MdspanVerif.Model.Convert
+import MdspanVerif.Model.ConvertG
 import MdspanVerif.Model.Adm
 /-! `conv` / `mapeq` op families (C08): the pure conversion and comparison model. -/
 open Mdspan
@@ -32,16 +32,29 @@ def descL (L : Layout) (idx : List (List Nat)) : String :=
 /-- `conv <srckind> <T> k=<ssp>,<dstkind>,<dsp>,<U>,<rank> ext= [str=] [pv=] idx=.. [pre]` -/
 def convLine (kind : String) (rest : List String) : String :=
   match ((getKey rest "k").getD "").splitOn "," with
-  | [ssp, dk, _dsp, _u, _r] =>
+  | [ssp, dk, dsp, _u, _r] =>
     let es := natL ((getKey rest "ext").getD "-")
     let ss := natL ((getKey rest "str").getD "-")
     let pv := ((getKey rest "pv").bind String.toNat?)
+    -- destination pattern (`spat=`): with a static padding value and a static extent to pad (rank > 1)
+    -- the destination's padded stride is the compile-time constant find_next_multiple(P, E_pad)
+    let dpat : List (Option Nat) := match getKey rest "spat" with
+      | some p => (p.splitOn ",").map String.toNat?
+      | none => []
+    let sps : Option Nat :=
+      match dsp.toNat? with
+      | some pval =>
+        if dpat.length > 1 && pval != 0 then
+          let padPos := if dk == "lpad" then 0 else dpat.length - 1
+          ((dpat.getD padPos none)).map (fun e => findNextMultiple pval e)
+        else none
+      | none => none
     match mkLayoutN kind ssp es ss pv, parseLKind dk with
     | some src, some d =>
       if (plainToks rest).contains "pre" then
-        s!"ok {fmtB (decide (ConvPre src d) && (convert src d).isSome)}"
+        s!"ok {fmtB (decide (ConvPreG src d sps) && (convertG src d sps).isSome)}"
       else
-        match convert src d with
+        match convertG src d sps with
         | none => "no-ctor"
         | some dst =>
           let idx := parseIdxs ((getKey rest "idx").getD "-")
